@@ -36,7 +36,7 @@ pub fn take_monitor_errors() -> Vec<String> {
     MONITOR_ERRORS.with(|l| std::mem::take(&mut *l.borrow_mut()))
 }
 
-pub const SEMS: [Sem; 10] = [
+pub const SEMS: [Sem; 11] = [
     Sem::Ident,
     Sem::Len,
     Sem::Upper,
@@ -47,6 +47,7 @@ pub const SEMS: [Sem; 10] = [
     Sem::BoolNot,
     Sem::Glue,
     Sem::Boom,
+    Sem::Lift,
 ];
 pub const ALIASES_PER_SEM: u32 = 16;
 
